@@ -2,7 +2,7 @@
 from . import common as C, core
 
 PROOF_FILES = ["Proof/ArmLemmas.v", "Proof/LinAffine.v", "Proof/LinFrame.v", "Proof/AffineSound.v", "Proof/BoundsOfSound.v",
-               "Proof/TightenSound.v", "Proof/PropagateSound.v", "Proof/PublishSound.v", "Proof/PublishedCompile.v", "Proof/CompileAffine.v"]
+               "Proof/TightenSound.v", "Proof/PropagateSound.v", "Proof/PublishSound.v", "Proof/PublishedCompile.v", "Proof/ShrinkSound.v", "Proof/CompileAffine.v"]
 
 
 def run(ctx):
